@@ -12,7 +12,7 @@ import sys
 from symex import shims
 
 CALLS = {"int", "float", "str", "chr", "ord", "range", "abs", "round", "len", "sorted", "min",
-         "max", "hash", "repr", "isinstance"}
+         "max", "hash", "repr", "isinstance", "set"}
 MODS = {"math": "__sym_math__", "re": "__sym_re__", "datetime": "__sym_datetime__"}
 STR_METHODS = {"find", "rfind", "index", "rindex", "count", "startswith", "endswith", "replace",
                "split", "strip", "lstrip", "rstrip", "partition"}
